@@ -72,9 +72,12 @@ LOCAL OnOpPlain(e, m) ==
 
 LOCAL OnOp(e, m) ==
     IF ~Aliased(e.before) THEN OnOpPlain(e, m)
-    ELSE LET r == OnOpPlain(e, [m EXCEPT !.viol = {}]) IN
-         IF r.viol = {} THEN m
-         ELSE V(m, "C11", "a requirement edit mishandles a project that is required under two names", e.kind)
+    ELSE LET r == OnOpPlain(e, [m EXCEPT !.viol = {}])
+             lost == "an existing requirement name was not preserved"
+             \* every name of a project that is still required survives, aliased or not
+             m1 == VIf(m, \E x \in r.viol : x.what = lost, "C11", lost, e.kind) IN
+         IF \A x \in r.viol : x.what = lost THEN m1
+         ELSE V(m1, "C11", "a requirement edit mishandles a project that is required under two names", e.kind)
 
 Mon(e, m0) ==
     LET m1 == CASE e.ev = "BuildList" -> OnBuildList(e, m0) [] e.ev = "Op" -> OnOp(e, m0) [] OTHER -> m0
